@@ -1,14 +1,14 @@
 #!/bin/bash
 # regress.sh [pattern] — re-run every stored seeded change against its property's check and the benign corpus against all checks.
 # Prints one line per change: CAUGHT / UNDECIDED / MISSED (+ whether that matches meta.json), and FALSE-ALARM lines for benign patches.
-cd /verif
+cd /verif; V=/verif
 pat=${1:-.}
 for d in seeded/*/; do
   n=$(basename $d)
   echo "$n" | grep -qE "$pat" || continue
   p=$(python3 -c "import json;print(json.load(open('$d/meta.json'))['property'])")
   exp=$(python3 -c "import json;m=json.load(open('$d/meta.json'))['detected_by'];print('MISSED' if m.startswith('MISSED') or m.upper().startswith('NOT DETECTED') else ('UNDECIDED' if m.startswith('UNDECIDED') else 'CAUGHT'))")
-  out=$(timeout 1800 ./tools/try_mutant.sh $d/patch.diff $p 2>&1)
+  out=$(timeout 1800 ./tools/try_mutant.sh /verif/$d/patch.diff $p 2>&1)
   code=$(echo "$out" | sed -n "s/^== $p exit=\([0-9]*\).*/\1/p")
   case "$code" in 1) got=CAUGHT;; 2) got=UNDECIDED;; 0) got=MISSED;; *) got="ERROR($code)";; esac
   flag=""; [ "$got" != "$exp" ] && flag="   <<< expected $exp"
@@ -17,7 +17,7 @@ done
 if [ "$pat" = "." ] || [ "$pat" = "benign" ]; then
   for d in benign/*/; do
     [ -f $d/patch.diff ] || continue
-    out=$(./tools/try_benign.sh $d/patch.diff 2>&1 | tail -3 | tr '\n' ' ')
+    out=$(./tools/try_benign.sh /verif/$d/patch.diff 2>&1 | tail -3 | tr '\n' ' ')
     echo "benign $(basename $d): $out"
   done
 fi
